@@ -59,10 +59,10 @@ def build_harness():
     log(f'[build] harness built in {time.time() - t0:.1f}s')
 
 
-def jsv(args, timeout=3600, stdin=None):
+def jsv(args, timeout=3600, stdin=None, seed_offset=0):
     """Run a harness subcommand; returns the parsed SUMMARY record."""
     build_harness()
-    env = dict(os.environ, VERIF_SEED=str(seed()))
+    env = dict(os.environ, VERIF_SEED=str(seed() + seed_offset))
     t0 = time.time()
     try:
         p = subprocess.run([JSV] + [str(a) for a in args], stdout=subprocess.PIPE, stderr=subprocess.PIPE,
